@@ -1,9 +1,9 @@
 from common import COMMON_TB
 
 CFG = {
-    "technique": "Lean 4 theorems over a generic write-program model (all programs, states, fault positions) + extracted error-handling table of every write path (go/types) + exhaustive fault-position injection on the real code through a walletdb decorator",
-    "level_text": "Error-or-full-effect, rollback-restores and retry are Lean theorems about every write program whose sites propagate errors / obey the memory-after-disk discipline; that the real call sites propagate is a generated fact decided in Lean without exception (C10_generated_sites_propagate: ErrSitesGen.allPropagated = true, and C10_generated_table_propagates for the frame table; regenerated from /repo's source on every run); every mutating operation of wtxmgr.Store and waddrmgr.Manager/ScopedKeyManager is run on the real code with a failure injected at every write position from states reached by random histories, and the observed result class is compared with the model's prediction for the recorded program.",
-    "level_note": "The model is parametric: the tie to the Go code is the extractor table (every dynamic call-stack frame above a write must be an extracted site) plus exhaustive fault-position enumeration per (operation, state); the data effect of writes is abstract. The former exception waddrmgr.putAddrAccountIndex (swallowed a failed index write) is fixed in /repo 277cb7d, which made C10_generated_sites_propagate a full theorem; the two older table theorems C10_generated_sites_propagate_partial / C10_generated_table_propagates_partial (every site propagates except possibly that one) are kept and still true, being weaker, and C10_putAddrAccountIndex_counterexample keeps the replay of the old handling in the model. Open findings of C10 are the memory-ahead-of-disk keys of waddrmgr listed in known-findings.txt (eager cache updates inside the transaction), not error propagation. Trusted: Lean kernel, the extractor and the faultdb decorator, walletdb.Update atomicity (C11), bbolt.",
+    "technique": "Lean 4 theorems over a generic write-program model (all programs, states, fault positions) + extracted error-handling table of every write path (go/types) + exhaustive fault-position injection on the real code through a walletdb decorator, from states reached by random histories with forced targets (rollback of mined coinbases, confirmation of spenders of leased outputs)",
+    "level_text": "Error-or-full-effect, rollback-restores and retry are Lean theorems about every write program whose sites propagate errors / obey the memory-after-disk discipline; that the real call sites propagate is a generated fact decided in Lean without exception (C10_generated_sites_propagate, C10_generated_table_propagates; regenerated every run). Every mutating operation of wtxmgr.Store and waddrmgr.Manager/ScopedKeyManager runs on the real code with a failure injected at every write position, from states whose histories always hold coinbase transactions (spent and unspent credits) and a lease-then-spend prelude, with forced Rollback / InsertTx targets on them.",
+    "level_note": "Tie to the Go code: the extractor table (every wallet frame above a write must be an extracted site) plus exhaustive fault positions per (operation, state); the data effect of writes is abstract. Former exceptions are fixed in /repo: putAddrAccountIndex swallowed a failed write (277cb7d; the weaker *_partial table theorems and C10_putAddrAccountIndex_counterexample are kept), SetBirthday assigned memory before the write (974f36c). Open findings: the 15 memory-ahead-of-disk keys of waddrmgr in known-findings.txt (eager cache updates), not error propagation. Trusted: Lean kernel, extractor, faultdb decorator, walletdb.Update atomicity (C11), bbolt.",
     "lean_props": ["BtcwVerif.Props.C10"],
     "engines": ["faultops"],
     "extractors": [{"name": "errsites", "out": "ErrSitesGen.lean"}],
@@ -17,6 +17,7 @@ CFG = {
         "a failing write has no effect on the database (the decorator returns the error before calling bbolt)",
         "exactly one write fails per run (the property's quantifier); commit failures belong to C11",
         "callbacks passed to walletdb ForEach / forEachX helpers have their error propagated by the callee (checked for the in-package helpers, assumed for bbolt)",
+        "observables of the tx store include UnspentOutputs / OutputsToWatch (list AND error flag), RangeTransactions block records, ListLockedOutputs and Balance at a height where every coinbase is mature (SimNet maturity 100); coinbase transactions are only ever recorded as mined",
         "write effects are abstract in the model (each write has a distinguishable effect); operations are replayed as the straight-line program observed in the fault-free twin run",
     ],
 }
